@@ -163,12 +163,12 @@ type SepCfg struct {
 }
 
 type WLCfg struct {
-	AlsoChar string  `json:"also_char,omitempty"` // SeparatorChar set although a SeparatorFunc is given (the function takes precedence)
-	Words   []string `json:"words"`
-	NilList bool     `json:"nil_list,omitempty"`
-	Length  int      `json:"length"`
-	Cap     string   `json:"cap"`
-	Sep     SepCfg   `json:"sep"`
+	AlsoChar string   `json:"also_char,omitempty"` // SeparatorChar set although a SeparatorFunc is given (the function takes precedence)
+	Words    []string `json:"words"`
+	NilList  bool     `json:"nil_list,omitempty"`
+	Length   int      `json:"length"`
+	Cap      string   `json:"cap"`
+	Sep      SepCfg   `json:"sep"`
 }
 
 var presetFuncs = map[string]spg.SFFunction{
